@@ -96,8 +96,13 @@ let () =
               EvMldQuery (zs (kv r "t"), zs (kv r "hop"), z_of_hex (kv r "src"), z_of_hex (kv r "dst"),
                           z_of_hex (kv r "mcast"), zs (kv r "code"))
           | "poll" :: r ->
-              let k = int_of_string (kv r "budget") in
-              EvPoll (zs (kv r "t"), List.init (if k < 0 then 64 else k) (fun _ -> true))
+              let grants =
+                match List.find_opt (fun w -> String.length w > 7 && String.sub w 0 7 = "grants=") r with
+                | Some w -> List.init (String.length w - 7) (fun i -> w.[7 + i] = '1')
+                | None ->
+                    let k = int_of_string (kv r "budget") in
+                    List.init (if k < 0 then 64 else k) (fun _ -> true) in
+              EvPoll (zs (kv r "t"), grants)
           | _ -> failwith ("bad op " ^ op) in
         match mc_step !st ev with
         | Ok (st', o) ->
